@@ -14,15 +14,17 @@ Definition zstep := step Z Z (fun x => x) Z.eqb.
 Definition b2z (b : bool) : Z := if b then 1 else 0.
 Definition show_ev (e : ev Z Z) : list Z :=
   match e with
-  | Release k => [1; k] | ValidateHolder k => [2; k] | SignCounterparty k => [3; k]
+  | Release k => [1; k] | ValidateHolder k a b => [2; k; a; b] | SignCounterparty k => [3; k]
   | SignHolder k => [4; k] | ValidateRevocation k => [5; k]
   | StoreSecret k s => [6; k; s] | Announce k p => [7; k; p]
   end.
-Definition show_st (s : st Z) : list Z :=
+Definition opz (o : option Z) : Z := match o with Some x => x | None => -1 end.
+Definition show_st (s : st Z Z) : list Z :=
   [holder_next s; cp_next s; b2z (awaiting_rr s); b2z (disconnected s); b2z (mon_in_progress s);
    b2z (mp_raa s); b2z (mp_cs s); b2z (raa_first s); b2z (closed s);
-   fst (reest_msg Z s); snd (reest_msg Z s)].
-Fixpoint run_show (s : st Z) (ops : list (op Z Z)) : list (list (list Z) * list Z) :=
+   b2z (chan_ready (hsk s)); b2z (our_ready (hsk s)); b2z (their_ready (hsk s)); b2z (wfb (hsk s));
+   opz (cp_cur_point s); opz (cp_next_point s)].
+Fixpoint run_show (s : st Z Z) (ops : list (op Z Z)) : list (list (list Z) * list Z) :=
   match ops with
   | [] => []
   | o :: r => let '(s', evs) := zstep s o in (map show_ev evs, show_st s') :: run_show s' r
@@ -61,6 +63,8 @@ def py_chk(events):
         if kind == "validate_holder":
             if k != vh - 1:
                 return pos, "validate_holder(%d): holder commitment numbers must step by exactly one from %d" % (k, vh)
+            if len(e) > 3 and e[2] != e[3]:
+                return pos, "holder commitment %d was accepted (and its predecessor will be revoked) although it is not fully signed: %d counterparty HTLC signatures for %d non-dust HTLCs" % (k, e[2], e[3])
             vh = k
         elif kind == "release":
             if not (k == vh + 1 and k <= INITIAL):
@@ -79,6 +83,8 @@ def py_chk(events):
                 return pos, "a secret for commitment %d was stored although it does not match the point announced for it" % k
             st = k
         elif kind == "announce":
+            if any(k0 == k for (k0, _) in ann):
+                return pos, "the per-commitment point announced for commitment %d was replaced by a later announcement" % k
             ann.add((k, e[2]))
     return None
 
@@ -88,7 +94,7 @@ def coq_ev(e):
     if kind == "release":
         return "Release %d" % k
     if kind == "validate_holder":
-        return "ValidateHolder %d" % k
+        return "ValidateHolder %d %d %d" % (k, e[2] if len(e) > 3 else 0, e[3] if len(e) > 3 else 0)
     if kind == "sign_counterparty":
         return "SignCounterparty %d" % k
     if kind == "sign_holder":
@@ -103,7 +109,31 @@ def coq_ev(e):
 def view_vec(v):
     if v is None:
         return None
-    return [v["hn"], v["cn"], int(v["aw"]), int(v["dc"]), int(v["mon"]), int(v["mpr"]), int(v["mpc"]), int(v["rf"])]
+    return [v["hn"], v["cn"], int(v["aw"]), int(v["dc"]), int(v["mon"]), int(v["mpr"]), int(v["mpc"]), int(v["rf"]),
+            int(v.get("ready", True)), int(v.get("ours", False)), int(v.get("theirs", False)), int(v.get("wfb", False)),
+            v.get("pc", None), v.get("pn", None)]
+
+
+CS_COUNT_RE = None
+
+
+def cs_params(args, obs, sig, gone_now):
+    """(sig_ok, nsig, nnd, htlc_ok) of a delivered commitment_signed, as the receiver saw them: from the
+    signer log when it validated, else from its closure reason."""
+    import re
+    nsig = args.get("nh", 0)
+    vh = [l for l in obs["log"] if l[0] == "validate_holder"]
+    reason = obs.get("closed") or ""
+    if vh and len(vh[0]) >= 5:
+        return True, vh[0][3], vh[0][4], True
+    m = re.search(r"wrong number of HTLC signatures \((\d+)\) from remote. It must be (\d+)", reason)
+    if m:
+        return True, int(m.group(1)), int(m.group(2)), True
+    if "Invalid HTLC tx signature" in reason:
+        return True, nsig, nsig, False
+    if gone_now and not vh:
+        return False, nsig, nsig, True      # invalid commitment signature (or a consequence of an earlier corruption)
+    return True, nsig, nsig, True
 
 
 class NodeTrace:
@@ -112,10 +142,20 @@ class NodeTrace:
 
     def __init__(self, n, init):
         self.n = n
-        self.p0, self.p1 = init["p0"], init["p1"]
+        self.p0, self.p1 = init["p0"], init.get("p1", -1)
         self.view = init["view"]
+        self.batch = bool(self.view.get("wfb", False))
         self.groups = []          # per harness step: dict(step=i, ops=[coq op strings], impl_events=[...], impl_view=vec|None, act=...)
-        self.events = [("announce", INITIAL, self.p0), ("announce", INITIAL - 1, self.p1)]
+        self.events = [("announce", INITIAL, self.p0)]
+        self.first_announced = {INITIAL: self.p0}
+        self.point_fails = []
+        self.release_fails = []
+        self.prelude = []
+        if self.view.get("ready", True):
+            # the scenario starts after the channel_ready exchange
+            self.prelude = ["OOurChannelReady", "ORecvChannelReady %s" % zlit(self.p1)]
+            self.events.append(("announce", INITIAL - 1, self.p1))
+            self.first_announced[INITIAL - 1] = self.p1
         self.released = {}        # commitment number -> secret id this node released for it
         self.htlc_signs = []      # (position in events, number)
         self.bcast_unsigned = []
@@ -128,7 +168,12 @@ class NodeTrace:
         act, node, args = step["act"], step.get("node"), step.get("args") or {}
         prev, view = self.view, obs["view"]
         log = obs["log"]
-        sig = [(l[0], l[1]) for l in log if l[0] in SIGNER_KINDS]
+        sig = []
+        for l in log:
+            if l[0] == "validate_holder" and len(l) >= 5:
+                sig.append((l[0], l[1], l[3], l[4]))
+            elif l[0] in SIGNER_KINDS:
+                sig.append((l[0], l[1]))
         for l in log:
             if l[0] in ("sign_holder",) and len(l) > 2:
                 self.signed_txids.add(l[2])
@@ -136,33 +181,44 @@ class NodeTrace:
         ops = []
         mine = node == n
         t = args.get("t") if act == "deliver" else None
+        signs_holder = any(e[0] == "sign_holder" for e in sig)
         if prev is not None:
             if act == "deliver" and mine and t == "cs":
-                # signature validity is an environment input of the model: a commitment_signed is invalid
-                # if the harness corrupted it, or as a late consequence of an earlier corrupted
-                # next_per_commitment_point; observed as "closed without validating"
-                valid = args.get("corrupt") is None and not (gone_now and not any(k == "validate_holder" for k, _ in sig))
+                sig_ok, nsig, nnd, htlc_ok = cs_params(args, obs, sig, gone_now)
+                if args.get("corrupt") == "cs_sig":
+                    sig_ok = False
                 need = (not prev["aw"]) and view is not None and view["aw"]
                 sync = view is not None and not view["mon"]
-                ops.append("ORecvCS %s %s %s" % (cb(valid), cb(need), cb(sync)))
+                ops.append("ORecvCS %s %d %d %s %s %s" % (cb(sig_ok), nsig, nnd, cb(htlc_ok), cb(need), cb(sync)))
             elif act == "deliver" and mine and t == "raa":
                 commit = view is not None and view["aw"]
                 sync = view is not None and not view["mon"]
                 ops.append("ORecvRAA %s %s T %s %s" % (zlit(args["secret"]), zlit(args["next_point"]), cb(commit), cb(sync)))
             elif act == "deliver" and mine and t == "reest":
                 ops.append("ORecvReest %s %s %s" % (zlit(args["nl"]), zlit(args["nr"]), self.sec_class(args, step)))
-            elif act in ("disconnect",) or (act in ("reload", "reload_stale")):
-                if act == "disconnect" or True:
-                    ops.append("ODisconnect")
+            elif act == "deliver" and mine and t == "ready":
+                ops.append("ORecvChannelReady %s" % zlit(args["next_point"]))
+            elif act in ("disconnect", "reload", "reload_stale"):
+                ops.append("ODisconnect")
                 if gone_now:
-                    ops.append("OForceClose" if any(k == "sign_holder" for k, _ in sig) else "OChainClose")
+                    ops.append("OForceClose" if signs_holder else "OChainClose")
             elif act == "mon_complete" and mine:
                 if prev["mon"]:
                     ops.append("OMonitorDone")
             elif act == "force_close" and mine:
                 ops.append("OForceClose")
             elif gone_now:
-                ops.append("OForceClose" if any(k == "sign_holder" for k, _ in sig) else "OChainClose")
+                ops.append("OForceClose" if signs_holder else "OChainClose")
+            # handshake progress made by the node itself (funding depth reached, batch completed); the
+            # ChannelManager does it whenever blocks/messages are processed, in any step
+            if view is not None and not any(o.startswith("OForceClose") or o.startswith("OChainClose") for o in ops):
+                recv_ready = any(o.startswith("ORecvChannelReady") for o in ops)
+                if prev.get("wfb", False) and not view.get("wfb", False):
+                    ops.append("OBatchReady")
+                ours_now = view.get("ours", False) and not prev.get("ours", False)
+                ready_by_us = view.get("ready", True) and not prev.get("ready", True) and not (recv_ready and prev.get("ours", False))
+                if ours_now or ready_by_us:
+                    ops.append("OOurChannelReady")
             # A new commitment can be built in ANY step, for either node: the harness drains both nodes'
             # pending message events after every action, which lets the ChannelManager free holding cells
             # (after a reestablish, a monitor completion, ...). ORecvCS / ORecvRAA already carry that bit.
@@ -173,23 +229,48 @@ class NodeTrace:
                 # a monitor update that carries no commitment (e.g. a preimage while the claim sits in the holding cell)
                 ops.append("OMonUpdate F")
         # re-signing of the current holder commitment by the monitor after the close
-        n_sh = sum(1 for k, _ in sig if k == "sign_holder")
+        n_sh = sum(1 for e in sig if e[0] == "sign_holder")
         closes_with_sign = 1 if (gone_now and n_sh > 0) else 0
         for _ in range(n_sh - closes_with_sign):
             ops.append("OResign")
-        self.groups.append({"step": step["i"], "act": act, "node": node, "args": args, "ops": ops, "impl_events": [[EV_CODE[k], v] for k, v in sig],
+        self.groups.append({"step": step["i"], "act": act, "node": node, "args": args, "ops": ops,
+                            "impl_events": [[EV_CODE[e[0]], e[1]] + list(e[2:]) for e in sig],
                             "impl_view": view_vec(view), "prev_view": view_vec(prev)})
         # ---- implementation event list for the policy judge
         for l in log:
             kind, num = l[0], l[1]
-            if kind in SIGNER_KINDS:
+            if kind == "validate_holder" and len(l) >= 5:
+                self.events.append((kind, num, l[3], l[4]))
+            elif kind in SIGNER_KINDS:
                 self.events.append((kind, num))
                 if kind == "validate_revocation" and act == "deliver" and mine and t == "raa" and prev is not None \
                         and view is not None and view["cn"] == prev["cn"] - 1:
                     self.events.append(("store", num, args["secret"]))
                     self.events.append(("announce", num - 2, args["next_point"]))
+                    self.first_announced.setdefault(num - 2, args["next_point"])
             elif kind == "sign_holder_htlc":
                 self.htlc_signs.append((len(self.events), num))
+        # the first channel_ready this node takes into account announces the point of INITIAL - 1
+        if act == "deliver" and mine and t == "ready" and prev is not None and view is not None \
+                and (INITIAL - 1) not in self.first_announced and not prev.get("dc", False):
+            self.first_announced[INITIAL - 1] = args["next_point"]
+            self.events.append(("announce", INITIAL - 1, args["next_point"]))
+        # (ii) the points the node holds are the ones FIRST announced for their numbers
+        if view is not None and view.get("pn") is not None:
+            shifted = view.get("ready", True) or view.get("theirs", False)
+            want_pn = self.first_announced.get(view["cn"] if shifted else view["cn"] + 1)
+            want_pc = self.first_announced.get(view["cn"] + 1) if shifted else None
+            if want_pn is not None and view["pn"] != want_pn:
+                self.point_fails.append((step["i"], "next", view["cn"] if shifted else view["cn"] + 1, want_pn, view["pn"]))
+            if want_pc is not None and view.get("pc", -1) != want_pc:
+                self.point_fails.append((step["i"], "current", view["cn"] + 1, want_pc, view.get("pc")))
+        # (i) a secret is released only while the monitor's current holder commitment is the successor,
+        #     signed completely: commitment signature and one valid HTLC signature per non-dust HTLC
+        h = obs.get("holder")
+        for l in log:
+            if l[0] == "release" and h is not None:
+                if not (h["num"] == l[1] - 1 and h["csig"] and h["nsig"] == h["nnd"] == h["nvalid"]):
+                    self.release_fails.append((step["i"], l[1], h))
         for l in log:
             if l[0] == "sign_counterparty":
                 unrec = bool(act == "deliver" and mine and t == "reest" and prev is not None and not prev["aw"])
@@ -205,10 +286,7 @@ class NodeTrace:
         for b in obs.get("bcast", []):
             if b.get("spends_funding") and b.get("seq0", 0) != 0xffffffff and b["txid"] not in self.signed_txids:
                 self.bcast_unsigned.append((step["i"], b["txid"]))
-        if view is not None or prev is None:
-            self.view = view
-        else:
-            self.view = None
+        self.view = view
 
     def sec_class(self, args, step):
         sid = args.get("secret", -1)
@@ -219,11 +297,22 @@ class NodeTrace:
         return "SecMatch" if (want is not None and want == sid) else "SecWrong"
 
     def coq_expr(self):
-        ops = [o for g in self.groups for o in g["ops"]]
-        return "run_show (init Z %s %s) [%s]" % (zlit(self.p0), zlit(self.p1), "; ".join(ops))
+        ops = self.prelude + [o for g in self.groups for o in g["ops"]]
+        return "run_show (init Z Z %s %s) [%s]" % (cb(self.batch), zlit(self.p0), "; ".join(ops))
 
     def coq_accept_expr(self):
         return "accepted [%s]" % "; ".join(coq_ev(e) for e in self.events)
+
+
+def same_view(model, impl):
+    """model: show_st vector (15 entries, index 8 = closed); impl: view_vec (14 entries)."""
+    m = model[:8] + model[9:]
+    for a, b in zip(m, impl):
+        if b is None:
+            continue
+        if a != b:
+            return False
+    return True
 
 
 def parse_nested(v):
@@ -254,6 +343,12 @@ def judge_node(tr):
             vh = e[1]
         elif e[0] == "release":
             rels.append(e[1])
+    for (sti, which, num, want, got) in tr.point_fails[:1]:
+        out.append({"why": "the %s counterparty commitment point held for commitment %d (point id %s) is not the one first announced for that number (point id %s): secrets will be checked against a substituted point (step %d)"
+                           % (which, num, got, want, sti)})
+    for (sti, k, h) in tr.release_fails[:1]:
+        out.append({"why": "the revocation secret of commitment %d was released while the newer holder commitment is not fully signed (number %d, commitment signature valid: %s, %d HTLC signatures of which %d valid for %d non-dust HTLCs) (step %d)"
+                           % (k, h["num"], h["csig"], h["nsig"], h["nvalid"], h["nnd"], sti)})
     # a number may be signed again only as a retransmission of the SAME commitment transaction
     seen = {}
     unrec_numbers = set()
@@ -272,17 +367,18 @@ def judge_node(tr):
     return out
 
 
-def revoke_corr(ctx, model_ok):
+def revoke_corr(ctx, model_ok, release=False):
     quick = ctx.tier == "quick"
-    n_scen, max_steps = (60, 140) if quick else (1000, 200)
-    seed = ctx.rng.fork("revoke").next() & ((1 << 62) - 1)
+    n_scen, max_steps = (60, 140) if quick else ((300, 160) if release else (800, 200))
+    pre = "release_" if release else ""
+    seed = ctx.rng.fork("revoke-release" if release else "revoke").next() & ((1 << 62) - 1)
     batches = 8 if quick else 16
     per = (n_scen + batches - 1) // batches
     import subprocess
     procs = []
     flagsets = ["all", "adv,async", "reload,close", "none", "all", "async,reload", "adv,close", "all"]
     for b in range(batches):
-        cmd = [ctx.bin_path("h_revoke"), "run", str(seed + b * 1000003), str(per), str(max_steps), flagsets[b % len(flagsets)]]
+        cmd = [ctx.bin_path("h_revoke", release), "run", str(seed + b * 1000003), str(per), str(max_steps), flagsets[b % len(flagsets)]]
         procs.append((cmd, subprocess.Popen(["timeout", "1500"] + cmd, stdout=subprocess.PIPE, stderr=subprocess.DEVNULL, universal_newlines=True, cwd=ctx.tmp)))
     recs = []
     import time
@@ -342,14 +438,16 @@ def revoke_corr(ctx, model_ok):
         for rp, rec, tr in traces:
             exprs.append(tr.coq_expr())
             exprs.append(tr.coq_accept_expr())
-        vals = ctx.coq_eval("corr_revoke", REV_IMPORTS, exprs, prelude=REV_PRELUDE, shards=min(16, max(1, len(exprs) // 8)), timeout=1200)
+        vals = ctx.coq_eval("corr_revoke" + ("_rel" if release else ""), REV_IMPORTS, exprs, prelude=REV_PRELUDE, shards=min(16, max(1, len(exprs) // 8)), timeout=1200)
         for ti, (rp, rec, tr) in enumerate(traces):
             model = parse_nested(vals[2 * ti])
             acc = vals[2 * ti + 1].strip()
             if acc != "1" and not any(f.get("replay") == rp and f.get("node") == tr.n for f in res["judge_fails"]):
                 res["judge_fails"].append({"why": "the Coq policy checker chk_all rejects the node's signer log", "replay": rp, "node": tr.n, "key": "chk_all"})
-            pos = 0
-            cur = [INITIAL - 1, INITIAL - 1, 0, 0, 0, 0, 0, 0, 0]
+            pos = len(tr.prelude)
+            cur = (model[pos - 1][1] if pos else None)
+            if cur is None:
+                cur = [INITIAL - 1, INITIAL - 1, 0, 0, 0, 0, 0, 0, 0, 0, 0, 0, int(tr.batch), -1, tr.p0]
             bad = None
             for g in tr.groups:
                 evs = []
@@ -357,9 +455,9 @@ def revoke_corr(ctx, model_ok):
                 for _ in g["ops"]:
                     e, s = model[pos]
                     pos += 1
-                    evs += [x[:2] for x in e if x[0] <= 5]
-                    distinct.add((tuple(cur), _.split(" ")[0], tuple(_.split(" ")[3:])) if (e or s[:9] != cur) else None)
-                    cur = s[:9]
+                    evs += [x for x in e if x[0] <= 5]
+                    distinct.add((tuple(cur[:13]), _.split(" ")[0], tuple(_.split(" ")[3:])) if (e or s != cur) else None)
+                    cur = s
                 if evs != g["impl_events"]:
                     bad = {"what": "signer calls differ", "model": evs, "impl": g["impl_events"]}
                 elif g["impl_view"] is None:
@@ -367,9 +465,9 @@ def revoke_corr(ctx, model_ok):
                         bad = {"what": "channel closed in the implementation, open in the model", "model_state": cur}
                 elif cur[8] == 1:
                     bad = {"what": "channel closed in the model, open in the implementation", "impl_view": g["impl_view"]}
-                elif cur[:8] != g["impl_view"]:
-                    bad = {"what": "numbers/flags differ [holder_next, cp_next, awaiting_rr, disconnected, mon_in_progress, mp_raa, mp_cs, raa_first]",
-                           "model": cur[:8], "impl": g["impl_view"]}
+                elif not same_view(cur, g["impl_view"]):
+                    bad = {"what": "numbers/flags/points differ [holder_next, cp_next, awaiting_rr, disconnected, mon_in_progress, mp_raa, mp_cs, raa_first, (closed), chan_ready, our_ready, their_ready, wfb, cur_point, next_point]",
+                           "model": cur, "impl": g["impl_view"]}
                 if bad:
                     bad.update({"topic": "revoke-trace", "replay": rp, "node": tr.n, "step": g["step"], "act": g["act"], "acting_node": g["node"], "args": g["args"],
                                 "ops": g["ops"], "model_state_before": before, "impl_view_before": g["prev_view"]})
@@ -384,15 +482,15 @@ def revoke_corr(ctx, model_ok):
                         break
         distinct.discard(None)
     rounds = sum(1 for rp, rec, tr in traces for e in tr.events if e[0] == "store")
-    ctx.coverage["revoke_scenarios"] = len(recs)
-    ctx.coverage["revoke_steps"] = n_steps
-    ctx.coverage["revoke_action_histogram"] = act_hist
-    ctx.coverage["revoke_signer_call_histogram"] = ev_hist
-    ctx.coverage["revoke_corruption_histogram"] = corrupt_hist
-    ctx.coverage["revoke_completed_revocations"] = rounds
-    ctx.coverage["revoke_model_ops"] = sum(len(g["ops"]) for _, _, tr in traces for g in tr.groups)
-    ctx.coverage["revoke_distinct_nontrivial"] = len(distinct)
-    ctx.coverage["revoke_scenarios_closed"] = sum(1 for rec in recs if any(o["view"] is None for s in rec["steps"][-1:] for o in (s.get("obs") or [])))
+    ctx.coverage[pre + "revoke_scenarios"] = len(recs)
+    ctx.coverage[pre + "revoke_steps"] = n_steps
+    ctx.coverage[pre + "revoke_action_histogram"] = act_hist
+    ctx.coverage[pre + "revoke_signer_call_histogram"] = ev_hist
+    ctx.coverage[pre + "revoke_corruption_histogram"] = corrupt_hist
+    ctx.coverage[pre + "revoke_completed_revocations"] = rounds
+    ctx.coverage[pre + "revoke_model_ops"] = sum(len(g["ops"]) for _, _, tr in traces for g in tr.groups)
+    ctx.coverage[pre + "revoke_distinct_nontrivial"] = len(distinct)
+    ctx.coverage[pre + "revoke_scenarios_closed"] = sum(1 for rec in recs if any(o["view"] is None for s in rec["steps"][-1:] for o in (s.get("obs") or [])))
     if traces:
         rp, rec, tr = traces[0]
         ctx.samples.append({"revoke_scenario": rp, "node": tr.n, "first_ops": [o for g in tr.groups for o in g["ops"]][:12],
